@@ -18,17 +18,17 @@ import (
 // otherwise it is a LEFT child.
 
 type levelLoop struct {
-	fn      *ssa.Function
-	iff     *ssa.If
-	idx     ssa.Value
-	h       ssa.Value // the level variable (conversions stripped)
-	setBlk  *ssa.BasicBlock
-	clrBlk  *ssa.BasicBlock
-	cur     *ssa.Phi // running hash
-	sx      *core.Symx
-	problem string
-	hPhi *ssa.Phi // the loop-carried counter (== h, or h-1 in the range form)
-	maskForm bool // the loop carries mask = 1<<h instead of h (top-down only)
+	fn       *ssa.Function
+	iff      *ssa.If
+	idx      ssa.Value
+	h        ssa.Value // the level variable (conversions stripped)
+	setBlk   *ssa.BasicBlock
+	clrBlk   *ssa.BasicBlock
+	cur      *ssa.Phi // running hash
+	sx       *core.Symx
+	problem  string
+	hPhi     *ssa.Phi // the loop-carried counter (== h, or h-1 in the range form)
+	maskForm bool     // the loop carries mask = 1<<h instead of h (top-down only)
 }
 
 // isShiftedMask: a loop Phi whose back edge is the Phi itself shifted right by one.
